@@ -4,7 +4,7 @@ Generator: pattern recipes (depth <= 3) over literals, types, lists/sets/frozens
 alternatives, tuples, dicts with literal / type / Optional(+default) / Required / predicate /
 compound keys, Regex, predicates, And/Or/Not and M comparisons; targets in three families:
 derived from the pattern (conforming by construction), one-edit mutations of those (near
-misses), unrelated values.  Four constructed classes on top (each with distribution floors):
+misses), unrelated values.  Six constructed classes on top (each with distribution floors):
   * incomparable: an M comparison whose operands Python cannot order ('a' > 0, None >= 1, M(T['k']) > 0 on {'k': 'a'})
     as the whole pattern, as the first alternative of Or / of a list, as a dict key in front of a type key, under
     Not, inside And below a list of dicts, in a tuple; with and without Match(default=)
@@ -20,10 +20,21 @@ misses), unrelated values.  Four constructed classes on top (each with distribut
     signalling NaN Decimal beside a numeric literal, an Amount that refuses == / != (raises, or answers without a truth
     value) beside any literal - as target / element / dict key, or as the literal written into the pattern; bare, first
     alternative of Or / of a list, literal dict key in front of a type key, Not, And, tuple; with and without default=
+  * optkey-raises: the same keys (an Amount refusing == / !=, by raising or by a result without truth value; a Sloppy
+    whose __eq__ reads an attribute of the other operand) in a target dict whose pattern lists Optional(lit) /
+    Optional(lit, default=d) / Optional((lit, 1)) / Required((lit, int)) as FIRST or MIDDLE key pattern in front of a type
+    key: the comparison of the target key with the Optional's constant cannot be evaluated, the next key pattern decides
+    (Required(lit) itself cannot be written: Required() refuses == constants); with and without default=
+  * truthless: bare M / M(T[..]) ("evaluates the target for truthiness") on a target - or the element reached - that has
+    no truth value (bool() raises, through __bool__ or __len__, like an array); bare, first alternative of Or / of a list,
+    dict value, Not, And, tuple (M and M(T[..]) cannot be hashed: no dict keys); a sixth of them on plain falsy values;
+    with and without default=
 
 Oracle: refmatch() - the documented rules only.  A comparison that cannot be evaluated (whatever Python raises while
 evaluating it or taking its truth value) and a Regex applied to the other string type are "this alternative does not
-match" (MatchError; the next alternative / Not / default= react), exactly like a predicate that raises.
+match" (MatchError; the next alternative / Not / default= react), exactly like a predicate that raises.  The same for a
+key comparison of Optional(lit) that cannot be evaluated (this key pattern does not match, the next one is tried) and for
+a truth value that cannot be taken (not truthy: bare M does not match).
 """
 import re
 import decimal
@@ -41,13 +52,16 @@ from .. import targets as tg
 PROPERTY = 'C09'
 RULE = ('patterns: recursive recipes (depth <= 3) over the documented Match constructs; targets: 40% derived from the '
         'pattern (conforming), 40% one-edit mutations of a conforming target, 20% unrelated. '
-        'Constructed on top (2 of 21 root draws each, the last 1 of 21): an M comparison on operands Python cannot order (bare / first '
+        'Constructed on top (2 of 21 root draws each, the last three 1 of 21 each): an M comparison on operands Python cannot order (bare / first '
         'alternative of Or or of a list / dict key / Not / And / tuple), Regex from a str or bytes pattern, given as '
         'text or compiled, on the other string type (bare / Or / list / Not / And / dict value), and an M comparison whose '
         'evaluation raises something other than TypeError (Decimal NaN / sNaN, a value class whose comparison methods raise '
         'one of 19 exception classes or return an object without a truth value; as target or as right-hand side; same '
         'positions, also below M(T[..])), and a literal whose == with the target cannot be evaluated (signalling NaN, a '
-        'value class refusing == / !=; as target, element, dict key or as the literal itself); a third of them with default=. '
+        'value class refusing == / !=; as target, element, dict key or as the literal itself), a target dict key whose == with the '
+        'constant of an Optional(lit[, default]) / Optional((lit, 1)) / Required((lit, int)) key pattern cannot be evaluated '
+        '(first or middle key pattern before a type key), and bare M / M(T[..]) (same positions, dict value) on a target '
+        'without truth value (bool() raises via __bool__ or __len__); a third of them with default=. '
         'Non-trivial = pattern depth >= 2 or a dict pattern with >= 2 kinds of key. Distribution floors: '
         'accepted >= 20%, rejected >= 20%, near-miss >= 25%, incomparable comparison met by the reference >= 2.5% (accepted '
         'through another alternative / Not >= 1.5%, rejected >= 1.1%, with default= >= 0.8%), compiled cross-type Regex met '
@@ -55,7 +69,11 @@ RULE = ('patterns: recursive recipes (depth <= 3) over the documented Match cons
         'by the reference >= 2.2% (accepted >= 1.5%, rejected >= 0.7%, with default= >= 0.6%; Decimal >= 0.65%, value '
         'class >= 1.5%, result without truth value >= 0.45%, as right-hand side >= 0.45%), literal == that raises met '
         '>= 1.2% (accepted >= 0.6%, rejected >= 0.5%, with default= >= 0.27%; without truth value >= 0.3%, signalling NaN '
-        '>= 0.42%, as the literal itself >= 0.28%).')
+        '>= 0.42%, as the literal itself >= 0.28%), Optional key comparison that cannot be evaluated met >= 1.9% (raises >= 1.4%, '
+        'no truth value >= 0.38%; accepted >= 1.2%, rejected >= 0.6%, with default= >= 0.45%; first >= 0.8%, middle >= 1.05%; '
+        'Optional(lit) >= 0.45%, with default >= 0.8%, tuple constant >= 0.18%, Required((lit, int)) >= 0.23%, sloppy __eq__ '
+        '>= 0.35%), truth value that cannot be taken met >= 0.75% (accepted >= 0.4%, rejected >= 0.28%, with default= >= 0.18%; '
+        'below M(T[..]) >= 0.26%, through __len__ >= 0.22%).')
 ASSUMPTIONS = [
     'reference matcher refmatch() implements only the documented rules (types by isinstance, list/set element-wise '
     'against any alternative, tuples positionally, dict keys in spec order, == otherwise)',
@@ -69,9 +87,13 @@ ASSUMPTIONS = [
     '"everything else by ==": a literal whose == with the target cannot be evaluated (it raises, or bool() of its result '
     'raises) is not equal to it - this alternative does not match, as for M comparisons; generated only for values whose '
     '== and != refuse alike',
+    'Optional(k) is an == key ("equality keys required unless Optional"): a target key whose == / != with k cannot be '
+    'evaluated is not equal to k - this key pattern does not match, the next key pattern is tried (as for a literal key)',
+    'bare M / M(T-expr) "evaluates the target for truthiness" (M docs): a target whose truth value cannot be taken (bool() '
+    'raises) is not truthy - M does not match (MatchError), as for an M comparison whose result has no truth value',
     'results are compared with == except that the very same leaf object counts as equal to itself (a NaN is not == to itself)',
     'a Regex (pattern given as text or pre-compiled) applied to a str/bytes target of the other string type does not match',
-    'mismatch kind foreign-exception[-eq-no-truth][-eq-raises][-m-incomparable][-m-no-truth][-m-raises-other][-regex-crosstype]: glom raised something that is neither a '
+    'mismatch kind foreign-exception[-eq-no-truth][-eq-raises][-m-incomparable][-m-no-truth][-m-raises-other][-optkey-no-truth][-optkey-raises][-regex-crosstype][-truth-raises]: glom raised something that is neither a '
     'MatchError nor a PathAccessError; the suffix names what the REFERENCE met while deciding (own buckets, so that one '
     'such defect cannot starve the report of another)',
 ]
@@ -157,8 +179,53 @@ class Amount(object):
                                             '/'.join(self.failing), self.v)
 
 
-XTYPES = {'Decimal': Decimal, 'Amount': Amount}
-SPECIAL_TAGS = ('dec', 'rc')      # ['dec', text] -> Decimal(text); ['rc', excname, failing ops, mode, v] -> Amount
+class Sloppy(object):
+    """a hashable key class with the usual sloppy __eq__: it reads the attribute of the other operand without looking at
+    its type, so == / != with anything that is no Sloppy raises AttributeError"""
+    __slots__ = ('x',)
+
+    def __init__(self, x):
+        self.x = x
+
+    def __eq__(self, other):
+        return self.x == other.x
+
+    def __hash__(self):
+        return hash(('Sloppy', self.x))
+
+    def __repr__(self):
+        return 'Sloppy(%r)' % (self.x,)
+
+
+class Truthless(object):
+    """a value without a truth value (like an array with several elements): bool() raises `excname`"""
+    __slots__ = ('excname',)
+
+    def __init__(self, excname):
+        self.excname = excname
+
+    def __repr__(self):
+        return '%s(%s)' % (type(self).__name__, self.excname)
+
+
+class TruthlessBool(Truthless):
+    __slots__ = ()
+
+    def __bool__(self):
+        raise EXCS[self.excname]('no truth value')
+
+
+class TruthlessLen(Truthless):
+    __slots__ = ()
+
+    def __len__(self):
+        raise EXCS[self.excname]('no length')
+
+
+XTYPES = {'Decimal': Decimal, 'Amount': Amount, 'Sloppy': Sloppy, 'Truthless': Truthless}
+# ['dec', text] -> Decimal(text); ['rc', excname, failing ops, mode, v] -> Amount; ['sl', x] -> Sloppy(x);
+# ['nt', excname, 'bool' | 'len'] -> a Truthless whose __bool__ / __len__ raises
+SPECIAL_TAGS = ('dec', 'rc', 'sl', 'nt')
 
 
 def typ_of(name):
@@ -208,7 +275,7 @@ HASHABLE_KEYS = ['a', 'b', 'c', 1]
 ORDER_OPS = ['>', '<', '>=', '<=']
 RE_MODES = ['str', 'cstr', 'bytes', 'cbytes']      # pattern given as text / re.compile(text) / bytes / re.compile(bytes)
 TAG_TYPE = {'s': 'str', 'i': 'int', 'f': 'float', 'none': 'NoneType', 'list': 'list', 'dict': 'dict', 'bytes': 'bytes',
-            'b': 'bool', 'dec': 'Decimal', 'rc': 'Amount'}
+            'b': 'bool', 'dec': 'Decimal', 'rc': 'Amount', 'sl': 'Sloppy', 'nt': 'Truthless'}
 
 
 def _has_special(r):
@@ -217,8 +284,24 @@ def _has_special(r):
     if r[0] in ('list', 'tuple'):
         return any(_has_special(x) for x in r[1])
     if r[0] == 'dict':
-        return any(_has_special(v) or (isinstance(k, list) and k[0] in SPECIAL_TAGS) for k, v in r[1])
+        return any(_has_special(v) or _key_special(k) for k, v in r[1])
     return False
+
+
+def _key_special(k):
+    """a dict key recipe that is, or (a tuple key) contains, one of the special leaves"""
+    if not isinstance(k, list):
+        return False
+    return k[0] in SPECIAL_TAGS or (k[0] in ('t', 'fs') and any(_key_special(x) for x in k[1]))
+
+
+def kbuild(k):
+    """the object of a dict key recipe: those of vf.targets, special leaves, tuples of either"""
+    if not _key_special(k):
+        return tg._key(k)
+    if k[0] in SPECIAL_TAGS:
+        return tbuild(k)
+    return (tuple if k[0] == 't' else frozenset)(kbuild(x) for x in k[1])
 
 
 def tbuild(r):
@@ -229,6 +312,10 @@ def tbuild(r):
         return Decimal(r[1])
     if tag == 'rc':
         return Amount(r[1], r[2], r[3], r[4])
+    if tag == 'sl':
+        return Sloppy(r[1])
+    if tag == 'nt':
+        return (TruthlessBool if r[2] == 'bool' else TruthlessLen)(r[1])
     if not _has_special(r):
         return tg.build(r).obj
     if tag == 'list':
@@ -238,7 +325,7 @@ def tbuild(r):
     if tag == 'dict':
         out = {}
         for k, v in r[1]:
-            out[tbuild(k) if isinstance(k, list) and k[0] in SPECIAL_TAGS else tg._key(k)] = tbuild(v)
+            out[kbuild(k)] = tbuild(v)
         return out
     raise ValueError('bad target recipe %r' % (r,))
 
@@ -658,8 +745,100 @@ def gen_literal_raises(draw):
     return p, t, shape, kind, side
 
 
+OK_KINDS = ['opt', 'opt', 'optd', 'optd', 'optkt', 'reqkt']
+
+
+def gen_optkey_raises(draw):
+    """a target dict key whose == / != with the constant of an Optional key pattern cannot be evaluated: an Amount that
+    refuses both (raises one of EXCS, or answers with an object whose bool() raises it), or a Sloppy (its __eq__ reads
+    other.x: AttributeError for every foreign operand).  The key pattern - Optional(lit), Optional(lit, default=d),
+    Optional((lit, 1)) against the tuple key (special, 1), Required((lit, int)) against the same (Required(lit) cannot be
+    written: Required() refuses == constants) - stands FIRST, or in the MIDDLE behind a key pattern that does not take
+    the key either, in front of a type key that does (or does not, or is missing: rejected).
+    Returns (pattern, target, kind, how the comparison fails, position)"""
+    kind = draw(st.sampled_from(OK_KINDS))
+    how = draw(st.sampled_from(['raise', 'raise', 'bool', 'sloppy']))
+    pos = draw(st.sampled_from(['first', 'middle']))
+    if how == 'sloppy':
+        special, stype = ['sl', draw(st.sampled_from([1, 2]))], 'Sloppy'
+    else:
+        more = draw(st.lists(st.sampled_from(ORDER_OPS), max_size=2))
+        # (the number is far from every other key: the dict that carries it never has to compare it)
+        special = ['rc', draw(st.sampled_from(sorted(EXCS))), [o for o in ALL_OPS if o in ('==', '!=') or o in more],
+                   'bool' if how == 'bool' else 'raise', draw(st.sampled_from([50, 51, -50]))]
+        stype = 'Amount'
+    lit = draw(st.sampled_from(HASHABLE_KEYS[:3]))
+    compound = kind in ('optkt', 'reqkt')
+    if kind == 'opt':
+        kp = ['opt', lit]
+    elif kind == 'optd':
+        kp = ['optd', lit, draw(st.sampled_from([['i', 0], ['s', 'dflt'], ['list', []]]))]
+    elif kind == 'optkt':
+        kp = ['optkt', [lit, 1]]
+    else:
+        kp = ['req', ['kt', [['lit', lit], ['type', 'int']]]]
+    skey = ['t', [special, 1]] if compound else special      # the key that cannot be compared with the constant
+    gkey = ['t', [lit, 1]] if compound else lit               # the key the constant is equal to
+    vp = ['type', 'int']
+    entries = [[kp, vp]]
+    wild = draw(st.sampled_from(['own', 'own', 'object', 'object', 'none', 'miss']))
+    if wild != 'none':
+        entries.append([['type', {'own': 'tuple' if compound else stype, 'object': 'object', 'miss': 'str'}[wild]], vp])
+    items = [[skey, draw(st.sampled_from([['i', 1], ['i', 1], ['i', 1], ['i', 4], ['s', 'x']]))]]
+    if draw(st.sampled_from(range(3)) if kind == 'reqkt' else st.sampled_from(range(2))):
+        items.insert(draw(st.sampled_from([0, 1])), [gkey, ['i', 2]])
+    if pos == 'middle':
+        olit = draw(st.sampled_from([x for x in HASHABLE_KEYS if x != lit]))
+        other = draw(st.sampled_from([['type', 'str'], ['type', 'int'], ['opt', olit], ['lit', olit]]))
+        entries.insert(0, [other, vp])
+        if other[0] == 'lit' and draw(st.sampled_from(range(3))):
+            items.insert(draw(st.sampled_from(range(len(items) + 1))), [olit, ['i', 3]])      # (a literal key is required)
+    return ['dict', entries], ['dict', items], kind, how, pos
+
+
+TL_SHAPES = ['bare', 'or', 'or', 'or-miss', 'list', 'list', 'dict-val', 'not', 'and-dict', 'tuple']
+
+
+def gen_truthless(draw):
+    """bare M / M(T[..]) on a value whose truth value cannot be taken: bool() raises one of EXCS, through __bool__ or
+    through __len__ (one case in six on a plain falsy value instead).  The value is the target or the element M(T[..])
+    reaches (M and M(T[..]) cannot be hashed: no dict keys).  Same positions as gen_incomparable, and as a dict value.
+    Returns (pattern, target, shape, kind, where)"""
+    shape = draw(st.sampled_from(TL_SHAPES))
+    if draw(st.sampled_from(range(6))) == 0:
+        kind = 'falsy'
+        special = draw(st.sampled_from([['i', 0], ['s', ''], ['none'], ['list', []], ['f', 0.0]]))
+    else:
+        kind = draw(st.sampled_from(['bool', 'bool', 'len']))
+        special = ['nt', draw(st.sampled_from(sorted(EXCS))), kind]
+    good = draw(st.sampled_from([['i', 1], ['s', 'a'], ['i', 5]]))
+    if draw(st.sampled_from(range(3))) == 0:
+        # below M(T[...]): the element reached has no truth value
+        seg = draw(st.sampled_from(['k', 0]))
+        atom = ['mtb', seg]
+        bad, good = (['dict', [['k', special]]], ['dict', [['k', good]]]) if seg == 'k' else (['list', [special]], ['list', [good]])
+        where = 'sub'
+    else:
+        atom, bad, where = ['mb'], special, 'target'
+    if shape == 'dict-val':
+        items = [['a', bad]]
+        if draw(st.booleans()):
+            items.insert(draw(st.sampled_from([0, 1])), ['zz', good])
+        return ['dict', [[['lit', 'a'], atom], [['type', 'str'], atom]]], ['dict', items], shape, kind, where
+    p, t, shape = _place(draw, shape, atom, bad, good, lit_alt=False)
+    return p, t, shape, kind, where
+
+
 def gen(draw):
     special = draw(st.sampled_from(range(21)))
+    if special == 6:
+        p, t, kind, how, pos = gen_optkey_raises(draw)
+        return {'pattern': p, 'target': t, 'family': 'near-miss', 'default': draw(st.sampled_from([False, False, True])),
+                'cls': 'optkey-raises:' + kind, 'ok': [kind, how, pos]}
+    if special == 7:
+        p, t, shape, kind, where = gen_truthless(draw)
+        return {'pattern': p, 'target': t, 'family': 'near-miss', 'default': draw(st.sampled_from([False, False, True])),
+                'cls': 'truthless:' + shape, 'tl': [kind, where]}
     if special == 18:
         p, t, shape, kind, side = gen_literal_raises(draw)
         return {'pattern': p, 'target': t, 'family': 'near-miss', 'default': draw(st.sampled_from([False, False, True])),
@@ -774,6 +953,10 @@ def build_pat(p):
         lhs = M(T[p[1]])
         return {'==': lambda: lhs == v, '!=': lambda: lhs != v, '>': lambda: lhs > v, '<': lambda: lhs < v,
                 '>=': lambda: lhs >= v, '<=': lambda: lhs <= v}[p[2]]()
+    if tag == 'mb':
+        return M
+    if tag == 'mtb':
+        return M(T[p[1]])
     if tag == 'dict':
         out = {}
         for k, v in p[1]:
@@ -813,19 +996,32 @@ def ref_compare(lhs, op, rhs, ev):
         raise Mis('m')
 
 
-def ref_equal(a, b, ev):
+def ref_equal(a, b, ev, what='eq'):
     """`a == b` as Python decides it ("everything else by =="); an == that cannot be evaluated does not hold (recorded in
-    ev: 'eq-raises' when the comparison raises, 'eq-no-truth' when bool() of its result does)"""
+    ev: 'eq-raises' when the comparison raises, 'eq-no-truth' when bool() of its result does; 'optkey-raises' /
+    'optkey-no-truth' for the constant of an Optional key pattern)"""
     try:
         res = a == b
     except Exception:
-        ev.add('eq-raises')
+        ev.add(what + '-raises')
         return False
     try:
         return bool(res)
     except Exception:
-        ev.add('eq-no-truth')
+        ev.add(what + '-no-truth')
         return False
+
+
+def ref_truthy(v, ev):
+    """bare M: "evaluates the target for truthiness".  A value whose truth value cannot be taken (bool() raises) is not
+    truthy (recorded in ev: 'truth-raises')"""
+    try:
+        ok = bool(v)
+    except Exception:
+        ev.add('truth-raises')
+        raise Mis('m-truth-raises')
+    if not ok:
+        raise Mis('m-falsy')
 
 
 def key_is_equality(k):
@@ -844,11 +1040,11 @@ def ref_key(key, k, ev):
         ref_compare(key, k[1], lit_val(k[2]), ev)
         return key
     if tag in ('lit', 'opt', 'optd'):
-        if not ref_equal(key, k[1], ev):
+        if not ref_equal(key, k[1], ev, 'eq' if tag == 'lit' else 'optkey'):
             raise Mis('key-eq')
         return key
     if tag == 'optkt':
-        if not ref_equal(key, tuple(k[1]), ev):
+        if not ref_equal(key, tuple(k[1]), ev, 'optkey'):
             raise Mis('key-eq')
         return key
     if tag == 'req':
@@ -880,7 +1076,7 @@ def ref_key(key, k, ev):
 def refmatch(t, p, ev):
     """the value Match(p) returns for t, or Mis.  ev (a set) collects what the reference met on the way:
     'm-incomparable', 'm-raises-other', 'm-no-truth', 'eq-raises', 'eq-no-truth', 'regex-crosstype',
-    'regex-crosstype-compiled'"""
+    'regex-crosstype-compiled', 'optkey-raises', 'optkey-no-truth', 'truth-raises'"""
     tag = p[0]
     if tag == 'type':
         if not isinstance(t, typ_of(p[1])):
@@ -986,6 +1182,16 @@ def refmatch(t, p, ev):
             raise Mis('access', access=True)
         ref_compare(sub, p[2], p[3][1], ev)
         return t
+    if tag == 'mb':
+        ref_truthy(t, ev)
+        return t
+    if tag == 'mtb':
+        try:
+            sub = t[p[1]]
+        except (KeyError, IndexError, TypeError):
+            raise Mis('access', access=True)
+        ref_truthy(sub, ev)
+        return t
     if tag == 'lit':
         if not ref_equal(t, lit_val(p[1]), ev):
             raise Mis('eq')
@@ -1067,19 +1273,30 @@ def check(recipe, ctx):
         ctx.label('rc-kind-' + recipe['rc'][0], 'rc-side-' + recipe['rc'][1])
     if recipe.get('lr'):
         ctx.label('lr-kind-' + recipe['lr'][0], 'lr-side-' + recipe['lr'][1])
+    if recipe.get('ok'):
+        ctx.label('ok-kind-' + recipe['ok'][0], 'ok-how-' + recipe['ok'][1], 'ok-pos-' + recipe['ok'][2])
+    if recipe.get('tl'):
+        ctx.label('tl-kind-' + recipe['tl'][0], 'tl-at-' + recipe['tl'][1])
     ev = set()
     try:
         exp = ('ok', refmatch(target, p, ev))
     except Mis as m:
         exp = ('mis', m)
     ctx.label('exp-' + exp[0])
+    if recipe.get('ok') or recipe.get('tl'):
+        ctx.label('cls-' + recipe['cls'].split(':')[0] + '+' + exp[0])
+        if recipe.get('ok') and ev & {'optkey-raises', 'optkey-no-truth'}:
+            ctx.label('optkey-met', 'optkey-met+' + exp[0], 'optkey-met-' + recipe['ok'][2])
+            if recipe['default']:
+                ctx.label('optkey-met+default')
     for e_ in sorted(ev):
         ctx.label(e_, e_ + '+' + exp[0])
         if recipe['default']:
             ctx.label(e_ + '+default')
     # a bucket of its own for exceptions that are no rejection at all, named after what the reference met
     foreign_kind = 'foreign-exception' + ''.join('-' + e_ for e_ in sorted(ev & {'m-incomparable', 'm-raises-other', 'm-no-truth', 'eq-raises', 'eq-no-truth',
-                                                                         'regex-crosstype'}))
+                                                                         'regex-crosstype', 'optkey-raises', 'optkey-no-truth',
+                                                                         'truth-raises'}))
     if "'mt'" in repr(p):
         ctx.label('has-M(T)')
     keykinds = set(k[0] for k, _ in p[1]) if p[0] == 'dict' else set()
@@ -1199,5 +1416,14 @@ SUBS = [
                 'rc-kind-dec': 0.0065, 'rc-kind-amount': 0.015, 'rc-side-rhs': 0.0045,
                 # a literal whose == with the target cannot be evaluated
                 'cls-literal-raises': 0.015, 'eq-raises': 0.012, 'eq-raises+ok': 0.006, 'eq-raises+mis': 0.005,
-                'eq-raises+default': 0.0027, 'eq-no-truth': 0.003, 'lr-kind-dec': 0.0042, 'lr-side-rhs': 0.0028}),
+                'eq-raises+default': 0.0027, 'eq-no-truth': 0.003, 'lr-kind-dec': 0.0042, 'lr-side-rhs': 0.0028,
+                # a target key whose == with the constant of an Optional key pattern cannot be evaluated (optkey-met: the
+                # reference came to that comparison)
+                'cls-optkey-raises': 0.022, 'optkey-met': 0.019, 'optkey-met+ok': 0.012, 'optkey-met+mis': 0.006,
+                'optkey-met+default': 0.0045, 'optkey-met-first': 0.008, 'optkey-met-middle': 0.0105,
+                'optkey-raises': 0.014, 'optkey-no-truth': 0.0038, 'ok-kind-opt': 0.0045, 'ok-kind-optd': 0.008,
+                'ok-kind-optkt': 0.0018, 'ok-kind-reqkt': 0.0023, 'ok-how-sloppy': 0.0035,
+                # bare M / M(T[..]) on a value whose truth value cannot be taken
+                'cls-truthless': 0.0105, 'truth-raises': 0.0075, 'truth-raises+ok': 0.004, 'truth-raises+mis': 0.0028,
+                'truth-raises+default': 0.0018, 'tl-at-sub': 0.0026, 'tl-kind-len': 0.0022}),
 ]
